@@ -12,7 +12,17 @@ pub mod strip_common;
 pub mod c01;
 #[cfg(all(kani, feature = "c02"))]
 pub mod c02;
+#[cfg(all(kani, feature = "c03"))]
+pub mod c03;
 #[cfg(all(kani, feature = "c05"))]
 pub mod c05;
+#[cfg(all(kani, feature = "c17"))]
+pub mod c17;
+#[cfg(all(kani, feature = "c07"))]
+pub mod c07;
+#[cfg(all(kani, feature = "c09"))]
+pub mod c09;
+#[cfg(all(kani, feature = "c12"))]
+pub mod c12;
 #[cfg(all(kani, feature = "c13"))]
 pub mod c13;
